@@ -379,6 +379,40 @@ def _nontrivial(line):
 def compare(ctx, cases, impl, model_lines):
     corr, orc = [], []
     hist = {}
+    # ---- audit1-c04 ---- the per-slot field behind " ## " (struct Ipv6Extensions, strict and lax):
+    # implementation against model, exact; stripped before the older fields are parsed
+    def _strip_slots(lines):
+        if lines is None:
+            return None, None
+        a, b = [], []
+        for l in lines:
+            if " ## " in l:
+                x, y = l.rsplit(" ## ", 1)
+            else:
+                x, y = l, None
+            a.append(x)
+            b.append(y)
+        return a, b
+    model_lines, _mslots = _strip_slots(model_lines)
+    _islots = {}
+    for _prof in list(impl.keys()):
+        impl[_prof], _islots[_prof] = _strip_slots(impl[_prof])
+    _nslots = 0
+    for _i, _c in enumerate(cases):
+        if _c.startswith("sll"):
+            continue
+        for _prof, _sl in _islots.items():
+            if _sl[_i] is None:
+                orc.append((_i, "%s: no slots field in the implementation answer" % _prof, None))
+            elif _mslots is not None:
+                if _mslots[_i] is None:
+                    corr.append((_i, "model runner printed no slots field"))
+                elif _mslots[_i] != _sl[_i]:
+                    corr.append((_i, "%s: Ipv6Extensions slots impl '%s' model '%s'" % (_prof, _sl[_i], _mslots[_i])))
+            if _sl[_i] is not None and "slots=hbh" in _sl[_i]:
+                _nslots += 1
+    hist["ipv6-struct-with-slots"] = _nslots
+    # ---- end audit1-c04 ----
     seen = set()
     nontriv = 0
     n_exc = 0
